@@ -51,9 +51,14 @@ Proof.
   - rewrite sc_SWhile. destruct (ec path c lr k c0) as [cc fc]. destruct (bc path c lr (Some 1) (k + length fc) body) as [cb0 fb].
     cbn [fst]. unfold I. rewrite resolve_snoc_CI.
     eexists. eexists. split; [rewrite !app_assoc; reflexivity|discriminate].
-  - destruct step; [discriminate|]. destruct name as [x|]; [|discriminate]. destruct collide; [discriminate|].
-    rewrite sc_SFrom. destruct (bc path c (S lr) (Some 1) k body) as [cbody fb].
-    eexists. exists (mkI OP_DELETE_NAME_SCOPED [x; lregn (S lr)]). split; [cbn [fst]; rewrite !app_assoc; reflexivity|discriminate].
+  - rewrite kstmt_SFrom in H. rewrite sc_SFrom. cbv zeta.
+    destruct (ec path c (from_lr1 lr name) k a) as [ca fa]. destruct (ec path c (from_lr1 lr name) (k + length fa) b) as [cb_ fb].
+    destruct (bc path c (S (from_lr1 lr name)) (Some 1) (k + length fa + length fb) body) as [cbody fbd].
+    destruct (stepc path c (S (from_lr1 lr name)) (k + length fa + length fb + length fbd) step) as [cs fs]. cbn [fst].
+    destruct collide.
+    + unfold I. rewrite resolve_snoc_CI. rewrite app_nil_r.
+      eexists. eexists. split; [rewrite !app_assoc; reflexivity|discriminate].
+    + eexists. exists (mkI OP_DELETE_NAME_SCOPED [from_idn lr name; lregn (S (from_lr1 lr name))]). split; [rewrite !app_assoc; reflexivity|discriminate].
   - destruct e as [e|].
     + rewrite sc_Return. destruct (ec path c lr k e) as [ce fe]. exists (map CI ce), (mkI OP_RET []). split; [reflexivity|reflexivity].
     + exists [], (mkI OP_RET []). split; reflexivity.
@@ -185,7 +190,7 @@ Proof.
     (* store p : the parameter is a fresh name of the function scope *)
     assert (Hpn0 : lookup_scopes p (locals env) = None).
     { destruct (lookup_scopes p (locals env)) eqn:E; [|reflexivity]. exfalso.
-      apply (Hfresh p (or_introl eq_refl)). apply (proj1 Hb). congruence. }
+      apply (Hfresh p (or_introl eq_refl)). apply (bound2_in _ _ _ Hb (proj2 (proj2 Hpu))). congruence. }
     assert (HpB : assoc p Bk = None).
     { destruct (assoc p Bk) as [kk|] eqn:E; [|reflexivity]. exfalso. apply (Hfresh p (or_introl eq_refl)).
       clear -E. induction Bk as [|[y ky] t IH]; [discriminate|]. cbn [assoc map fst In] in *.
@@ -207,13 +212,7 @@ Proof.
         { pose proof (Rfr2_look _ _ _ (cl_fr _ _ _ _ _ _ _ _ _ _ _ _ HC1t) p Hpu) as Hl. rewrite Hpn0 in Hl.
           destruct (find_in_function p (frames g1t)); [contradiction|reflexivity]. }
         unfold store_var. rewrite Hf. unfold bind_local. rewrite Ef. reflexivity. }
-    assert (Hb1 : bound2 ((p, k1) :: Bk) env1).
-    { split.
-      - intros y. cbn [env1 locals lookup_scopes map fst In]. destruct (list_eq_dec N.eq_dec y p) as [->|Hne].
-        + rewrite assoc_set_same. split; [intros _; now left|discriminate].
-        + rewrite assoc_set_other by exact Hne. pose proof (proj1 Hb y) as Hy. rewrite El in Hy. cbn [lookup_scopes] in Hy. rewrite Hy.
-          split; [intros H; now right|intros [H|H]; [congruence|exact H]].
-      - intros y [<-|Hy]; [exact Hpu|exact (proj2 Hb y Hy)]. }
+    assert (Hb1 : bound2 ((p, k1) :: Bk) env1) by (eapply (bound2_declare Bk env p k1 _ acc [] env1 Hb El); [reflexivity|exact Hpu]).
     assert (Eal : alloc s v = (s1, N.of_nat (length (store s)))) by reflexivity.
     rewrite Eal.
     pose proof (IH pk vs ws (S k) ((p, k1) :: Bk) (assoc_set p (N.of_nat (length (store s))) acc)
@@ -251,7 +250,8 @@ Proof.
   destruct Hkf as (Epk & Hndp & Hsrc & EG & Htot & B' & rets & Hkb & Hrets).
   rewrite ec_EFn in Hinst. cbv zeta in Hinst. cbn [snd] in Hinst. apply (installed_app prog) in Hinst as [Hinb Hinf].
   set (fcd := fcode path d lr k ps body) in *.
-  destruct (Hinf loc (S d) fcd ltac:(left; rewrite Eloc; reflexivity)) as [Hcode Hsm].
+  destruct (Hinf loc (S d + lr) fcd ltac:(left; rewrite Eloc; reflexivity)) as [Hcode Hsm0].
+  assert (Hsm : small (S d + 2 * length fcd + 8)) by (eapply small_le; [|exact Hsm0]; lia).
   destruct (vrels_length path prog _ _ _ _ Hvs) as [Hlv Hlw].
   assert (Hlp : length ps = length pk) by (rewrite Epk, map_length; reflexivity).
   unfold call_clos_.
@@ -271,7 +271,7 @@ Proof.
   pose proof (params_sim loc fcd cbf G (frames g1) (Some (pk, r)) ps pk vs ws 0 [] [] b a0 gP env0 s ws
                 ltac:(intros j i Hj; rewrite Efc; cbn [Nat.mul Nat.add]; rewrite nth_error_app1; [exact Hj|apply nth_error_Some; congruence])
                 eq_refl eq_refl eq_refl ltac:(intros j w Hj; exact Hj) HC0 eq_refl
-                ltac:(split; [intros x; cbn; split; [congruence|intros []]|intros x []])
+                ltac:(split; [intros x _; cbn; split; [congruence|intros []]|intros x []])
                 Hndp ltac:(intros x _ []) Hsrc Hvs Hlp
                 ltac:(eapply small_le; [|exact Hsm]; rewrite Hlenc; lia) ltac:(rewrite Hlenc; lia)) as Hprm.
   destruct (bind_params ps vs s []) as [[sc s1]|]; [|contradiction].
@@ -289,6 +289,7 @@ Proof.
                 ltac:(destruct (tailc_cases cb0) as [Et|Et]; [left; rewrite Hlenc, Et; cbn [length]; lia|
                       right; split; [exact (bc_ends_ret path _ body _ G B' rets (S d) lr k Hkb Et)|rewrite Hlenc, Et; cbn [length]; lia]])
                 ltac:(split; [discriminate|intros m Hm; discriminate Hm])
+                ltac:(unfold lrok; eapply small_le; [|exact Hsm0]; lia)
                 Hip1 ltac:(rewrite (proj2 (proj2 Ha1)); reflexivity) Hops1 ltac:(cbn [locals length]; lia) HC1).
   assert (Egp : cells gP = cells g1) by reflexivity.
   assert (Hbext : forall b' s' g', bext b1 b' s1 gq -> lens s1 s' gq g' -> bext b b' s g1).
@@ -308,7 +309,7 @@ Proof.
   2:{ destruct H as (m & _ & _ & _ & Hsl & _). discriminate Hsl. }
   2:{ destruct H as (m & _ & _ & _ & Hsl & _). discriminate Hsl. }
   - (* the body completes without `return`: no value *)
-    destruct H as (_ & a2 & g2 & b2 & SM2 & Hip2 & Hops2 & HC2).
+    destruct H as (_ & a2 & g2 & b2 & SM2 & Hip2 & Hops2 & HC2 & _).
     split; [destruct Htot as [Ht|Ht]; [exact Ht|exfalso; exact (last_ret_sig _ _ _ _ _ _ Ht Eex)]|].
     unfold smid in SM2. destruct SM2 as (R2 & E2 & T2 & A2 & S2 & K2 & L2).
     pose proof (same_tl_length {| locals := [sc]; captured := cenv; cur := Some fv |} env2 ltac:(cbn; discriminate) Hd2) as Hl2.
@@ -440,11 +441,12 @@ Proof.
   fold env0 gP in HC0.
   assert (Hlits : length its = length cbm) by (unfold cbm; rewrite <- (CI_strip its Hits) at 1; apply map_length).
   pose proof (bspec_all path P name mc None [] [] None 0 Hsm fuel (fun f _ => call_sim_all path P f) p b0 [] 0 false None 0 0 0 fuel 0 a0 gP env0 s0 B' rets
-                (le_n _) Hk ltac:(split; [intros x; cbn; split; [congruence|intros []]|intros x []]) Hinst) as H.
+                (le_n _) Hk ltac:(split; [intros x _; cbn; split; [congruence|intros []]|intros x []]) Hinst) as H.
   fold its in H. rewrite Hlits in H.
   specialize (H ltac:(apply items_at_strip; [exact Hits|]; exact (code_at_embed [] cbm [ret_mod]))
                 ltac:(left; unfold mc; rewrite app_length; cbn [length]; lia)
                 ltac:(split; [discriminate|intros m Hm; discriminate Hm])
+                ltac:(unfold lrok; eapply small_le; [|exact Hsm]; lia)
                 eq_refl eq_refl eq_refl ltac:(cbn; lia) HC0).
   cbn [Nat.add] in H.
   unfold run in *. fold env0 s0 in Hnf |- *.
@@ -452,7 +454,7 @@ Proof.
   - cbn [spost] in H. destruct H as [Hd H]. destruct sig as [| | |[v|]].
     2:{ destruct H as (m & _ & _ & _ & Hsl & _). discriminate Hsl. }
     2:{ destruct H as (m & _ & _ & _ & Hsl & _). discriminate Hsl. }
-    + destruct H as (_ & a' & g' & b' & SM & Hip & Hops & HC).
+    + destruct H as (_ & a' & g' & b' & SM & Hip & Hops & HC & _).
       unfold smid in SM. destruct SM as (Hn & _).
       pose proof (same_tl_length env0 env' ltac:(cbn; discriminate) Hd) as Hl. cbn [env0 locals length] in Hl.
       pose proof (Rfr2_drop _ _ _ (cl_fr _ _ _ _ _ _ _ _ _ _ _ _ HC)) as Hdrop. rewrite Hl in Hdrop.
